@@ -117,7 +117,7 @@ func surfaceStream() *hx.Stream {
 	}
 	n := 250
 	if cfg.Thorough() {
-		n = 6000
+		n = 4000
 	}
 	for i := 0; i < n; i++ {
 		w, h := pick(small), pick(small)
@@ -256,7 +256,7 @@ func renderStream() *hx.Stream {
 	s.ShardMax = 100
 	n := 400
 	if cfg.Thorough() {
-		n = 8000
+		n = 6000
 	}
 	for i := 0; i < n; i++ {
 		nextID = 0
